@@ -92,6 +92,12 @@ _EXACT_SEARCH = {}
 
 
 def replay(case):
+    if "mip-variable-declared-boolean" in str(case.get("_obligation", "")):
+        # a relaxed variable shows where the LP relaxation is fractional: odd cycles among three annotators (both modes, both back-ends)
+        r = pipeline.real_medium_check(dict(cases=pipeline.odd_cycle_cases()), mode="soft", backends=("cbc", "glpk_import"))
+        if not r.get("reproduced"):
+            r = pipeline.real_medium_check(dict(cases=pipeline.odd_cycle_cases() + pipeline.dense_cases(40)), mode="best", backends=("cbc", "glpk_import"))
+        return r
     """both back-ends on the real build: structure + same disorder"""
     if "solver-asked-for-an-exact-optimum" in str(case.get("_obligation", "")):
         # an option passed to solve() shows on continua where the solver has to branch, not on the small symbolic shapes:
